@@ -29,6 +29,9 @@ type Plan struct {
 	AttackHeight int64 `json:"attack_height,omitempty"`
 	// Crashes of correct validators
 	Crashes []CrashSpec `json:"crashes,omitempty"`
+	// DropRound0At: at these heights every round-0 proposal and block part is
+	// dropped, so that the height needs at least one more round
+	DropRound0At []int64 `json:"drop_round0_at,omitempty"`
 	// Target height: the run stops when every live correct validator finalized it
 	Target int64 `json:"target"`
 }
@@ -45,6 +48,12 @@ type CrashSpec struct {
 	Victim   int        `json:"victim"`
 	AtHeight int64      `json:"at_height"` // armed when the victim finalized AtHeight-1
 	Point    CrashPoint `json:"point"`
+	// OnSend (optional): instead of arming when the height is reached, arm at the
+	// moment the victim hands an own vote of this kind to the network at AtHeight
+	// ("prevote" / "precommit" / "proposal"), in a round >= MinRound; the validator
+	// then dies at its next WAL operation.
+	OnSend   string `json:"on_send,omitempty"`
+	MinRound int32  `json:"min_round,omitempty"`
 	armed    bool
 }
 
@@ -191,6 +200,17 @@ func (r *Router) onSend(from *Inc, to int, pk *test.Packet) {
 			return
 		}
 	}
+	if pm != nil && !c.Mon.isByz(from.Idx) {
+		r.armOnSend(from, pm)
+		if (pm.Kind == "proposal" || pm.Kind == "blockpart") && pm.Round == 0 {
+			for _, h := range r.plan.DropRound0At {
+				if h == pm.Height {
+					r.count(&r.Dropped)
+					return
+				}
+			}
+		}
+	}
 	if c.Mon.isByz(from.Idx) && pm != nil {
 		if r.byz.handle(from, to, pk, pm, seq) {
 			return
@@ -198,6 +218,37 @@ func (r *Router) onSend(from *Inc, to int, pk *test.Packet) {
 	}
 	r.trace("send", from.Idx, to, pm)
 	r.route(from.Idx, to, pk, pm)
+}
+
+// armOnSend arms crash specs that are triggered by the victim's own send.
+func (r *Router) armOnSend(from *Inc, pm *parsed) {
+	kind := ""
+	switch {
+	case pm.Kind == "proposal":
+		kind = "proposal"
+	case pm.Vote != nil && pm.Vote.Type == consensus.VoteTypePrevote:
+		kind = "prevote"
+	case pm.Vote != nil && pm.Vote.Type == consensus.VoteTypePrecommit:
+		kind = "precommit"
+	default:
+		return
+	}
+	c := r.c
+	c.mu.Lock()
+	defer c.mu.Unlock()
+	if c.incs[from.Idx] != from {
+		return
+	}
+	for i := range r.plan.Crashes {
+		cs := &r.plan.Crashes[i]
+		if cs.armed || cs.OnSend != kind || cs.Victim != from.Idx || cs.AtHeight != pm.Height || pm.Round < cs.MinRound {
+			continue
+		}
+		cs.armed = true
+		cp := cs.Point
+		from.Wal.Arm(&cp)
+		return
+	}
 }
 
 // route applies the fault plan to one (packet, destination).
